@@ -161,6 +161,7 @@ type Gen struct {
 	specSrc  map[string]*types.Func
 	frames   []*Frame
 	lemmaKey string
+	frameGuard string
 }
 
 type InputVar struct {
@@ -1132,6 +1133,18 @@ func (g *Gen) instr(fr *Frame, st *State, ins ssa.Instruction) {
 		g.frameCheck(fr, st, p)
 		if a, ok := x.Addr.(*ssa.Alloc); ok {
 			g.anchorAsserts(fr, st, a.Comment)
+			// also as name#k (k-th declaration of that name in the function)
+			k := 0
+			for _, bb := range fr.fn.Blocks {
+				for _, in := range bb.Instrs {
+					if al, ok := in.(*ssa.Alloc); ok && al.Comment == a.Comment {
+						k++
+						if al == a {
+							g.anchorAsserts(fr, st, fmt.Sprintf("%s#%d", a.Comment, k))
+						}
+					}
+				}
+			}
 		}
 	case *ssa.UnOp:
 		g.unop(fr, st, x)
